@@ -11,6 +11,7 @@ import dec_engine as de
 
 # candidate tables: (TLA+ rendering, python object given to the library)
 CUSTOMS = [
+    ({"C": 6, "N": 5, "O": 3, "N+1": 1, "?": 3}, {"C": 6, "N": 5, "O": 3, "N+1": 1, "?": 3}),   # valid, looser than default for C N O
     ({"C": 2, "N+1": 1, "O": 1, "?": 3}, {"C": 2, "N+1": 1, "O": 1, "?": 3}),          # valid
     ({"?": 1}, {"?": 1}),                                                               # valid, everything by default
     ({"C": 4, "N": 3}, {"C": 4, "N": 3}),                                               # missing '?'
@@ -20,6 +21,7 @@ CUSTOMS = [
     ({"C+0": 2, "?": 8}, {"C+0": 2, "?": 8}),                                           # non-canonical charge
 ]
 DPROBES = [["[C]", "[=C]", "[#C]", "[N+1]", "[=O]", "[Fe]", "[=Fe]"],
+           ["[C]", "[NH4]", "[C]", "[OH3]", "[CH5]", "[C]"],          # hydrogen-rich atoms: in / out of the grammar depending on the table
            ["[C]", "[Branch1]", "[C]", "[O]", "[=N+1]", "[Ring1]", "[C]", "[C]"],
            ["[O]", "[=O]", "[=O]", ".", "[NH4+1]", "[Foo]"]]
 EPROBES = [["C", "=C", "#C"], ["N", "(", "C", ")", "(", "C", ")", "(", "C", ")", "C"], ["O", "=[N+]", "(", "O", ")", "C"],
@@ -199,8 +201,8 @@ def api_check(pid, tier, invariants, ops_note):
                          "non-trivial = history with a state-changing call followed by an observation")
     d = 4 if quick else 5
     customs = CUSTOMS if not quick else CUSTOMS[:5]
-    dpro = DPROBES[:2] if quick else DPROBES
-    epro = EPROBES[:2] if quick else EPROBES[:3]
+    dpro = DPROBES[:3] if quick else DPROBES
+    epro = EPROBES[:1] if quick else EPROBES[:3]
     # design-level MC (VIEW hides nothing relevant: the history is replaced by its length)
     r, _ = run_api_tlc("mc", d + 1, customs, dpro, epro, invariants=API_INVARIANTS, properties=["RejectAtomic"])
     rep.add_tlc(r, "SelfiesAPI depth %d (design: copy on get, clear on set)" % (d + 1))
